@@ -309,7 +309,7 @@ def finalize(ctx):
     for n in range(2, 8):
         total = 1 if n <= 2 else n ** (n - 2)
         need = (total + BLOCK - 1) // BLOCK
-        complete[f'n{n}'] = blocks.get(f'n{n}', 0) == need
+        complete[f'n{n}'] = blocks.get(f'n{n}', 0) >= need
     ctx.extra['enumerated_completely'] = complete
     ctx.extra['exhaustive'] = False
     ctx.note('exhaustive only for the labelled trees listed under enumerated_completely (x every moved atom); '
